@@ -1325,6 +1325,10 @@ class FnCtx:
             # The `let` and the references by name are emitted as for any local; the value is only remembered so that
             # `x % prime` is known to have a non-zero constant divisor (op_call_mpz).
             self.env[v["id"]]["cval"] = val.v % (1 << 64)
+        if cat == "u64" and re.match(r"\s*const\b", v["type"]["qualType"]):
+            # `const size_t copyBytes = size * sizeof(Element);`: the local cannot be reassigned, so a later
+            # `memcpy(.., .., copyBytes)` has the byte count of the initialiser (has_word_factor looks through the name)
+            self.env[v["id"]]["cinit"] = init[0]
         if cat == "u64":
             val = self.as_u64(val)
         elif cat in ("s64", "s32"):
@@ -1700,6 +1704,11 @@ class FnCtx:
             return isinstance(v, Const) and v.v % 8 == 0
         if k == "IntegerLiteral":
             return int(n["value"]) % 8 == 0
+        if k == "DeclRefExpr":
+            # a `const` local (vardecl): the byte count is the one of its initialiser
+            e = self.env.get(n.get("referencedDecl", {}).get("id"))
+            if e and e.get("cinit") is not None:
+                return self.has_word_factor(e["cinit"])
         return False
 
     def word_count(self, node, nbytes):
